@@ -254,6 +254,36 @@ func init() {
 		}
 		return false
 	}
+	externals["strings.ContainsAny"] = func(fr *frame, args []value) value {
+		if ss, ok := allStrings(args[0], args[1]); ok {
+			return strings.ContainsAny(ss[0], ss[1])
+		}
+		set := mustConcrete(args[1], "character set")
+		if !asciiOnly(set) {
+			panic(pathAbort{"unsupported", "non-ASCII character set"})
+		}
+		for _, sg := range strSegs(fr.i.ex.flatten(args[0])) {
+			if fr.inSet(sg, set) {
+				return true
+			}
+		}
+		return false
+	}
+	externals["strings.ContainsRune"] = func(fr *frame, args []value) value {
+		r := fr.concreteInt(args[1], "rune")
+		if s, ok := args[0].(string); ok {
+			return strings.ContainsRune(s, rune(r))
+		}
+		if r >= 0x80 {
+			panic(pathAbort{"unsupported", "non-ASCII rune"})
+		}
+		for _, sg := range strSegs(fr.i.ex.flatten(args[0])) {
+			if fr.inSet(sg, string(rune(r))) {
+				return true
+			}
+		}
+		return false
+	}
 	externals["strings.ToLower"] = func(fr *frame, args []value) value {
 		if s, ok := args[0].(string); ok {
 			return strings.ToLower(s)
